@@ -1309,6 +1309,29 @@ def c25_unpack(R):
         "_unpack_truisms_or changed: a disjunction may only be narrowed when exactly one disjunct can hold",
         construct="_unpack_truisms_or",
     )
+    # ... and the disjunct that must hold is itself among the truisms handed back (not only what it unpacks to: for a
+    # plain comparison that is nothing, and the Or would then be processed as if it were a comparison)
+    unr = util.resolve_locals(un)
+    live_pat = re.compile(r"c\.args\[.+\.index\(False\)\]|.+\[0\]", re.S)
+    handed = False
+    for node in ast.walk(unr):
+        members = []
+        if isinstance(node, ast.Set):
+            members = node.elts
+        elif isinstance(node, ast.Call) and dotted(node.func) in ("set", "frozenset") and node.args and isinstance(node.args[0], (ast.List, ast.Tuple, ast.Set)):
+            members = node.args[0].elts
+        if any(live_pat.fullmatch(ast.unparse(e)) for e in members):
+            handed = True
+    R.check(
+        handed,
+        m,
+        un,
+        "the only possible disjunct of an Or is handed back as a truism",
+        "_unpack_truisms_or hands back only what the single possible disjunct unpacks to, not the disjunct itself: for a "
+        "plain comparison that is nothing, the Or is then processed like a comparison and _adjust_truism raises "
+        "ClaripyBalancerError (SolverHybrid().add(Or(x <u 0, y <u 2)) failed)",
+        construct="_unpack_truisms_or hands back the live disjunct",
+    )
     and_arm = [st for st in top.get("'And'", []) if isinstance(st, ast.Return) and st.value is not None]
     R.check(
         len(and_arm) == 1 and util.alpha_eq(and_arm[0].value, "set.union(*[Balancer._unpack_truisms(a) for a in c.args])", un),
